@@ -93,7 +93,8 @@ func (n *Number) FillBig() {
 		n.BigBuf = append(n.BigBuf, '-')
 	}
 	n.BigBuf = append(n.BigBuf, strconv.FormatUint(n.I, 10)...)
-	if 0 < n.Frac {
+	if 1 < n.Div { // there are fraction digits, possibly all zero so far
+
 		n.BigBuf = append(n.BigBuf, '.')
 		if 1000000000000000000 <= n.Frac { // nearest multiple of 10 below max int64
 			n.BigBuf = append(n.BigBuf, strconv.FormatUint(n.Frac, 10)...)
